@@ -5,7 +5,7 @@ META = {
     "design_ref": "6/C09",
     "technique": "Coq proof: symbolic conversion of the in-place round body to the paper's index-wise round for all 72/80 rounds, fold induction; KAT-anchored spec; differential correspondence impl = model = spec",
     "level_text": "Machine-checked theorem C09_encrypt_eq_spec: for every key, tweak and block the model of encrypt_block (in-place rounds, destination permutation tables, subkey table) equals the index-wise Skein 1.3 definition, for both expansions of unroll8! (C09_unroll_irrelevant). The spec reproduces the six published vectors (C09_kats). Implementation = model = spec is checked on generated cases in both feature settings.",
-    "level_note": "Trusted: Coq kernel+VM; spec transcription (rotation constants, pi, C240 validated only by the published vectors); hand-written model tied on generated cases; harness. The conformance proof is parametric in the word operations: it establishes the index / schedule structure (in-place update with destination permutation tables, subkey indices, round counts, tweak and parity words); wrapping 64-bit add, rotate direction and C240 are the shared Lib/Words.v definitions on both sides and rest on the six published vectors and the correspondence. C09_unroll_irrelevant holds by conversion (the two macro expansions are convertible); the both-feature harness runs carry that clause for the code. No axioms.",
+    "level_note": "Trusted: Coq kernel+VM; spec transcription (rotation constants, pi, C240 validated only by the published vectors); hand-written model tied on generated cases; harness. The conformance proof is parametric in the word operations: it establishes the index / schedule structure (in-place update with destination permutation tables, subkey indices, round counts, tweak and parity words); wrapping 64-bit add, rotate direction and C240 are the shared Lib/Words.v definitions on both sides; they are anchored to the textbook forms by C09_*_arith (Proofs/LeftoversThreefish.v): with add = (a + b) mod 2^64, rotl r x = (x * 2^r) mod 2^64 + x / 2^(64 - r) and xor, the arithmetic-form specification equals the specification, so the model equals it too; the rotation / permutation constants and C240 still rest on the six published vectors. C09_unroll_irrelevant holds by conversion (the two macro expansions are convertible); the both-feature harness runs carry that clause for the code. No axioms.",
     "rule": "cases = (size, key, tweak, block) from seeded xoshiro: zero vectors, published-vector inputs, then structured/random incl. carry-heavy words; distinct = distinct (size,key,tweak,block); non-trivial = key or block non-zero; implementation E(b) compared with model and with spec inside coqc; the constructor rotates over with_tweak / NewBlockCipher::new / NewBlockCipher::new_from_slice (the latter two for the zero tweak) and the blocks travel through encrypt_block, encrypt_blocks on a 3-block slice (equal blocks at positions 0 and 2 must give equal results), encrypt_par_blocks, or a clone of the object (and the decrypt forms), rotating with case index and seed; all four blocks of a case (E(b), D(b), D(E(b)), E(D(b))) pass through ONE object; one key in six has its last word chosen so that the parity word k[N_w] is within 20 of 2^64 (the subkey addition k[N_w] + s wraps); every call into the implementation runs under catch_unwind: a panic is reported as outcome of the case with key, tweak and block as failing input (before: harness crash without input)",
     "assumptions": ["little-endian host"],
 }
